@@ -47,7 +47,14 @@ fn relate<K: Fam>(a: &Enr<K>, sa: &Snap, b: &Enr<K>, sb: &Snap, st: &mut Stats) 
             sa.sig == sb.sig
         ));
     }
-    if eq {
+    // "equal records carry identical pairs" presupposes a signature that binds the content: the toy
+    // scheme with one-byte signatures (family Nano) collides once in 256 contents, so the consequence is
+    // only demanded for signatures of at least 6 bytes
+    let binding = sa.sig.len() >= 6;
+    if eq && !binding {
+        st.label("eq-under-non-binding-signature");
+    }
+    if eq && binding {
         if sa.pairs != sb.pairs {
             return Err("equal records carry different key/value pairs".into());
         }
@@ -190,8 +197,7 @@ impl Property for C15 {
         }
     }
     fn enumerate(&self, quick: bool) -> Box<dyn Iterator<Item = Case> + Send + '_> {
-        let fams: Vec<FamId> = if quick { vec![FamId::K256, FamId::Ed] } else { ALL_FAMS.to_vec() };
-        let hists = fams.into_iter().flat_map(move |f| history::exhaustive(f, if quick { 1 } else { 2 })).map(Case::Hist);
+        let hists = ALL_FAMS.into_iter().flat_map(move |f| history::exhaustive(f, if quick { 1 } else { 2 })).map(Case::Hist);
         // pairs of independently made wire records that share some of {seq, key, content, signature}:
         // same content under two keys, same key with two contents, and records under the small-order
         // ed25519 key in its different encodings (same signature bytes, different key bytes)
@@ -295,7 +301,7 @@ impl Property for C15 {
             FamId::Ed => transitivity::<ed25519_dalek::SigningKey>(&v)?,
             FamId::CombinedSecp | FamId::CombinedEd => transitivity::<enr::CombinedKey>(&v)?,
             FamId::Var | FamId::Wide => transitivity::<crate::keys::VarKey>(&v)?,
-            FamId::Tiny | FamId::Mid => transitivity::<crate::keys::TinyKey>(&v)?,
+            FamId::Tiny | FamId::Mid | FamId::Nano | FamId::Big => transitivity::<crate::keys::TinyKey>(&v)?,
         }
         let nt = v.nontrivial;
         drop(v);
